@@ -40,6 +40,8 @@ def val_s(v):
         return "fn " + v["full"]
     if k == "zst":
         return "zst"
+    if k == "enum":
+        return "%s::%s" % (v["adt"], v["variant"])
     return "<%s>" % k
 
 
